@@ -232,6 +232,49 @@ def gcm_crafted_scripts(rng, tier):
     return out
 
 
+def state_scripts(rng, tier, n=None):
+    """every session STATE: packets (well-formed) whose sequence numbers sit at the edges of the replay window of a running
+    stream, on the sender as well as on the receiver — behind the highest index by ws-1, ws, ws+1, several windows, up to 2^15,
+    with and without allow_repeat_tx, window sizes that are and are not multiples of 32, after set_roc; the replay data base
+    indexes its bit vector with (length - 1 + delta)"""
+    out = []
+    n = n or (12 if tier == "quick" else 120)
+    for k in range(n):
+        ssrc = rng.randrange(2, 1 << 32)
+        ws = rng.choice([64, 65, 100, 128, 128, 1024, 32767])
+        p = default_policy(rng, ssrc, window=ws, allow_repeat=(k % 2 == 0))
+        L = [p.line(1), "create 1 1", "create 2 1"]
+        hi = rng.choice([5, 300, 40000, 65530, 70000])
+        sent = {}
+        def tx(idx, also_rx=True):
+            pkt = rtp_packet(ssrc, idx & 0xffff, payload=rand_key(rng, rng.choice([0, 5, 32])))
+            L.append(pkt_op("protect", 1, pkt, extra=40, mode=rng.choice([0, 1])))
+            sent.setdefault(idx, len(L))
+        def rx(idx):
+            if idx in sent:
+                L.append(pkt_op("unprotect", 2, f"@{sent[idx]:x}", cap=120, mode=rng.choice([0, 1])))
+        # walk the sender (and receiver) up to hi, remembering some old packets for late delivery
+        base = max(0, hi - 2 * ws - 40)
+        for idx in sorted({base, base + 1, max(0, hi - ws - 1), max(0, hi - ws), max(0, hi - ws + 1), max(0, hi - 1), hi}):
+            tx(idx)
+        rx(hi)
+        if rng.random() < 0.3:
+            r = (hi >> 16) + rng.choice([1, 2])
+            L += [f"setroc 1 {H(ssrc)} {H(r)}", f"setroc 2 {H(ssrc)} {H(r)}"]
+        for _ in range(12 if tier == "quick" else 40):
+            d = rng.choice([0, 1, ws - 1, ws, ws + 1, 2 * ws, 3 * ws + 7, 20000, 32767, 32768, 40000])
+            idx = hi - d
+            if idx < 0:
+                continue
+            tx(idx)            # the sender is asked to protect a late / repeated sequence number
+            rx(idx)            # ... and the receiver gets a late packet (if it exists)
+            if rng.random() < 0.2:
+                hi += rng.choice([1, ws, 5000]); tx(hi); rx(hi)
+        L += ["dealloc 1", "dealloc 2"]
+        out.append((f"state-{k}", "\n".join(L) + "\n"))
+    return out
+
+
 def monitor(script, c):
     hits = []
     for l in c:
@@ -253,6 +296,7 @@ def families(tier, seed):
             Family("malformed-packets", malformed_scripts(rng, tier), monitor=monitor),
             Family("forged-by-key-holder", forged_scripts(rng, tier), monitor=monitor),
             Family("xtn-edge-shapes", xtn_edge_scripts(rng, tier), monitor=monitor),
+            Family("window-edge-states", state_scripts(random.Random(seed * 1000 + 310), tier), monitor=monitor),
             # the AES-GCM paths (OpenSSL configuration): malformed / truncated / extended / bit-flipped packets, small capacities
             Family("gcm-malformed-packets", with_aead(malformed_scripts, random.Random(seed * 1000 + 110), tier, n=(12 if tier == "quick" else 200)),
                    monitor=monitor, config="openssl"),
